@@ -167,6 +167,10 @@ func c09(r *Report) {
 					if ld, isLd := b.X.(*ssa.UnOp); isLd && ld.Op == token.MUL && pathOf(ld.X) == pathOf(st.Addr) {
 						additive = true
 					}
+					// addition commutes: w = quantity + w
+					if ld, isLd := b.Y.(*ssa.UnOp); isLd && b.Op == token.ADD && ld.Op == token.MUL && pathOf(ld.X) == pathOf(st.Addr) {
+						additive = true
+					}
 				}
 				r.Sites++
 				r.Decide("flow", fmt.Sprintf("%s: store to %s #%d is an increment/decrement of the window", fnName(f), name, ordinalStore(st)), additive, "w = w +/- quantity", "a flow-control window is overwritten (clamped or reset) instead of adjusted: credit the receiver never granted appears, or granted credit is lost", st.Pos())
